@@ -46,14 +46,27 @@ def c16_main(tier, only=None):
         if h.count(5) > h.count(4):
             continue
         shapes.append(('hx_attributes', [sum(k << (3 * i) for i, k in enumerate(h)), 0], 'attributes/' + ''.join(map(str, h))))
+    for lv in ((1, 3, 4) if tier == 'quick' else (1, 2, 3, 4, 5)):
+        shapes.append(('hx_attr_hier', [lv, 0], 'attr_hier/%d' % lv))
+    # time stamps (UTC): epoch, last/first second of a day, 2017-09-27 17:17:28 (in-tree test), new-year days where ISO week year != calendar year,
+    # leap day, end of a leap year, 2038 boundary
+    stamps = [0, 86399, 86400, 1506532648, 1546214400, 1546300799, 1546300800, 1609459200, 1582934400, 1609459199, 2147483647, 2147483648]
+    if tier == 'quick':
+        stamps = [86399, 86400, 1506532648, 1546214400, 1609459200, 1582934400]
+    for kind in range(3):
+        for custom in range(6):
+            for ts in stamps:
+                if tier == 'quick' and custom > 0 and ts not in (86399, 1546214400):
+                    continue
+                shapes.append(('hx_dates', [kind, custom, ts], 'dates/k%d/f%d/t%d' % (kind, custom, ts)))
     if only:
         shapes = [s for s in shapes if re.search(only, s[2])]
     u = E2Unit('log_C16', os.path.join(HERE, 'w_fmt.cpp'), lib_srcs=lib_srcs(), shapes=shapes, timeout=600 if tier == 'quick' else 1800, conc_cap=300,
                bounds=dict(definition='builder sequences of 1-3 (4 thorough) fields over 12 field kinds, width 0..6 and alignment symbolic, automatic separator on/off',
-                           message='level/class symbolic over the enums, line and error number 0..20 symbolic, text 2 symbolic printable bytes (each symbolic where the definition shows it)', attributes='histories of <= 3 (4 thorough) add/remove/scope/message operations'))
+                           message='level/class symbolic over the enums, line and error number 0..20 symbolic, text 2 symbolic printable bytes (each symbolic where the definition shows it)', attributes='histories of <= 3 (4 thorough) add/remove/scope/message operations', attribute_hierarchy='chains of 1, 3, 4 (thorough 1..5) message attribute objects, defining subset symbolic', dates='3 date/time kinds x default + 5 custom format strings x 6 (thorough 12) time stamps incl. day/year/ISO-week-year boundaries, width 0..24 and alignment symbolic'))
     rule = ('one obligation = (builder sequence or attribute history); widths, alignment flags and message data symbolic; z3 decides equality with the reference definition / reference rendering on every path')
     assumptions = ['IR of creator.cpp, format.cpp, log_msg.cpp, log_attributes*.cpp, logging.cpp + libstdc++ headers', 'ostream padding (setw/left/fill) is produced by the sink model of irsym_cxx following [ostream.formatted]: the real padding code is in libstdc++.so',
-                   'date/time fields: only the definition (kind, format string, width) is checked; strftime/localtime output is outside the technique', 'clock / pid fixed']
+                   'date/time fields: localtime()/strftime() are modelled by their libc contract for concrete time stamps (listed set, TZ=UTC); arbitrary time stamps and the calendar arithmetic of libc are outside the technique', 'clock / pid fixed']
 
     def classify(v):
         return v['msg'] if v['kind'] == 'assert' else v['kind'] + ': ' + re.sub(r'0x[0-9a-f]+', 'ADDR', re.sub(r'\d+', 'N', v['msg']))[:110]
@@ -82,11 +95,14 @@ def main(tier, only=None):
         kinds = sum(k << (4 * i) for i, k in enumerate(st))
         for policy in ((2,) if tier == 'quick' else (0, 2)):
             shapes.append(('hx_logging', [kinds, policy, 6], 'logging/p%d/%s' % (policy, '.'.join(KN[k] for k in st))))
+    for n in ((3, 4) if tier == 'quick' else (1, 2, 3, 4, 5)):
+        for flt in sorted(set((0, n - 1, n))):
+            shapes.append(('hx_routing', [n, flt], 'routing/n%d/f%d' % (n, flt)))
     if only:
         shapes = [s for s in shapes if re.search(only, s[2])]
     u = E2Unit('log_C14', os.path.join(HERE, 'w_log.cpp'), lib_srcs=lib_srcs(), shapes=shapes, timeout=300 if tier == 'quick' else 1200, conc_cap=300,
                bounds=dict(filter_settings='sequences of <= 3 settings (type enumerated, level parameters symbolic over the whole enum)', message='level and class symbolic over the whole enums',
-                           duplicate_policy='ignore / exception / replace', logging='2 logs x 2 destinations, 6 filter sites, log-id mask symbolic'))
+                           duplicate_policy='ignore / exception / replace', logging='2 logs x 2 destinations, 6 filter sites, log-id mask symbolic', routing='3 and 4 logs (thorough 1..5), every id subset incl. non-contiguous ones and one undefined bit'))
     rule = ('one obligation = (duplicate policy, sequence of filter types[, filter sites]); inside, every filter level, the message level/class and the log selection are symbolic; '
             'z3 decides agreement with the truth-table reference on every path')
     assumptions = ['IR of the unmodified log library sources + libstdc++ headers', 'clock / pid / thread id: fixed environment values', 'allocation never fails',
